@@ -45,7 +45,8 @@ extern "C" void coloquinte_verif_shift_hook(const void *placer, int nbCells, con
                                             const int *arcSource, const int *arcTarget, const long long *arcCost, const long long *arcFlow) {
   if (!g_pl || placer != (const void *)g_pl) return;
   const DetailedPlacement &dp = g_pl->placement_; const IncrNetModel &xt = g_pl->xtopo_;
-  if (g_lp.size() < 200 && g_prevX.size() == dp.cellX_.size() && g_prevTopo.size() == xt.cellPos_.size()) {
+  // circuits of the 2^31 streams (hundreds of nets): the model's evaluation of one record takes seconds, two records per op are kept
+  if (g_lp.size() < (xt.nbNets() > 300 ? 2u : 200u) && g_prevX.size() == dp.cellX_.size() && g_prevTopo.size() == xt.cellPos_.size()) {
     std::ostringstream s;
     s << dp.nbRows();
     for (int r = 0; r < dp.nbRows(); ++r) { auto cs = dp.rowCells(r); s << " " << dp.rows()[r].minX << " " << dp.rows()[r].maxX << " " << cs.size(); for (int c : cs) s << " " << c << " " << g_prevX[c] << " " << dp.cellWidth(c); }
@@ -70,7 +71,47 @@ int main(int argc, char **argv) {
       GenOpts o; o.nets = true; o.utilLo = 20; o.utilHi = 85; o.maxCells = 12;
       if (m & 2) o.turned = false; if (m & 16) o.polarity = false;
       TCircuit t = genCircuit(g, o);
-      if (g.coin(2)) {
+      std::string pre; int npre = 0;   // ops placed before the random ones
+      auto reorderFirst = [&]() {
+        // the 2^31 streams start with reordering passes (type 6: nbRows >= 1, maxNbCells >= 2, i.e. reordering switched on) and a
+        // reordering of an explicit window, repeated: a pass that compares candidate orders in 32 bits accepts a worse order
+        int nrep = (int)g.uni(1, 3);
+        for (int k = 0; k < nrep; ++k) { pre += " 6 " + std::to_string(g.uni(1, 2)) + " " + std::to_string(g.uni(2, 4)); ++npre; }
+        if (g.coin(50)) { int kk = (int)g.uni(2, 4); int c0 = (int)g.uni(0, 40); pre += " 8 " + std::to_string(kk); for (int j = 0; j < kk; ++j) pre += " " + std::to_string(c0 + j); ++npre; }
+      };
+      int big = (int)g.uni(0, 99);
+      if (big == 2 || big == 3) {
+        // designed: 1..3 rows of row-high cells already legal, left to right with gaps; every cell carries nL two-pin nets to a pad far
+        // left and nR to a pad far right (|x| ~ 3.9e6 < 2^22), nL - nR = width * q with q STRICTLY decreasing along the row: the x part of
+        // the value is const + sum (nL - nR) * x, so the legalized order is the unique optimum of every window (Smith's rule; exchanging
+        // two neighbours costs w1 * w2 * (q1 - q2) >= 1).  600..800 nets: total in [2^31, 2^32); 1100..1300: above 2^32.
+        t = TCircuit();
+        int nrows = (int)g.uni(1, 3); long long rh = 2 * g.uni(1, 3), x0 = g.uni(-30, 30), y0 = g.uni(-30, 30);
+        std::vector<long long> pull;   // nL - nR per cell
+        for (int r = 0; r < nrows; ++r) {
+          int m = (int)g.uni(2, 6); long long x = x0; std::vector<long long> ws(m);
+          for (int i = 0; i < m; ++i) {
+            ws[i] = g.uni(1, 4); x += g.coin(40) ? g.uni(1, 3) : 0;
+            t.cells.push_back({x, y0 + r * rh, ws[i], rh, 0, 0, 0, 0}); x += ws[i];
+          }
+          t.rows.push_back({x0, x + g.uni(0, 4), y0 + r * rh, y0 + (r + 1) * rh, r % 2 ? 5 : 0});
+          long long q = g.uni(1, 4) + m; for (int i = 0; i < m; ++i) { pull.push_back(ws[i] * q); q -= g.uni(1, 2); }
+        }
+        int n0 = (int)t.cells.size();
+        long long padL = -(3900000LL + g.uni(0, 100000)), padR = 3900000LL + g.uni(0, 100000);
+        t.cells.push_back({padL, y0 + g.uni(-20, 20), 1, 1, 0, 0, 1, 0}); t.cells.push_back({padR, y0 + g.uni(-20, 20), 1, 1, 0, 0, 1, 0});
+        long long want = g.coin(70) ? g.uni(600, 800) : g.uni(1100, 1300), have = 0;
+        for (long long pv : pull) have += std::llabs(pv);
+        long long base = std::max<long long>(0, (want - have) / (2 * n0) + 1);
+        for (int c = 0; c < n0; ++c) {
+          long long nL = base + std::max<long long>(pull[c], 0), nR = base + std::max<long long>(-pull[c], 0);
+          for (long long k = 0; k < nL; ++k) { t.nets.push_back({{c, 0, 0}, {n0, 0, 0}}); t.netw2.push_back(2); }
+          for (long long k = 0; k < nR; ++k) { t.nets.push_back({{c, 0, 0}, {n0 + 1, 0, 0}}); t.netw2.push_back(2); }
+        }
+        reorderFirst();
+      }
+      if (big < 2) {
+        reorderFirst();
         // many two-pin nets to fixed pads near the edge of the supported magnitude range (|v| < 2^22): every coordinate and every net
         // span fits an int with a wide margin, the TOTAL wirelength passes 2^31 (the optimiser's values are long long in the code).
         // (Pads at +-1.2e9 were tried first: lemon's NetworkSimplex<int,int> then cycles for ever in runShiftsOnCells -- int overflow of
@@ -80,8 +121,8 @@ int main(int argc, char **argv) {
         int nn = (int)g.uni(600, 800);
         for (int k = 0; k < nn && n0 > 0; ++k) { int c = (int)g.uni(0, n0 - 1); t.nets.push_back({{c, 0, 0}, {first + (int)g.uni(0, npads - 1), 0, 0}}); t.netw2.push_back(2); }
       }
-      int n = (int)t.cells.size(); int nops = (int)g.uni(1, 8);
-      printf("DO %s %s %d", showRowsCells(t).c_str(), showNets(t).c_str(), nops);
+      int n = (int)t.cells.size(); int nops = (int)g.uni(npre ? 0 : 1, npre ? 5 : 8);
+      printf("DO %s %s %d%s", showRowsCells(t).c_str(), showNets(t).c_str(), nops + npre, pre.c_str());
       for (int k = 0; k < nops; ++k) {
         int ty = (int)g.uni(0, 11); if (ty > 8) ty = (int)g.uni(0, 2);
         if (ty == 0) { int kk = (int)g.uni(1, 4); printf(" 0 %d %d", (int)g.uni(0, 40), kk); for (int j = 0; j < kk; ++j) printf(" %d", (int)g.uni(0, 40)); }
